@@ -7,6 +7,7 @@ A program is a JSON-able dict:
   item: {"t":"act","ctx":C,"act":A} | {"t":"go","far":local index|"next"|"me","needs":[need...]}
         | {"t":"timeout","v":units} | {"t":"repeat","n":int} | {"t":"let","needs":[...]}
         | {"t":"aux","aux":framer index,"needs":[...]}          (plain aux when needs == [])
+        | {"t":"aux","aux":index of a moot framer,"as":tag,"needs":[...]}   (`aux m<k> as <tag> [if …]`: a named clone)
   A: {"k":"rec","tag":int,"ret":0|1} | {"k":"put"|"set"|"inc","dst":i,"v":int} | {"k":"incf","dst":i,"src":j}
      | {"k":"copy","src":i,"dst":j} | {"k":"done"} | {"k":"bid","ctl":c,"targets":[framer index|"me"|"all"]}
   need: {"k":"cd","sh":i,"op":op,"v":int} | {"k":"ci","a":i,"op":op,"b":j} | {"k":"bo","sh":i}
@@ -16,6 +17,10 @@ A program is a JSON-able dict:
           only in the needs of go / conditional aux items; the mark's key is the global number of the marked frame)
         each with optional "neg": true
 Framers are named m<i>, frames f<g> with g the global frame number (declaration order), shares .v<i>.
+A framer with "sched": "moot" is only a template: `expand` replaces every clone clause by a reference to a further
+framer (appended after the declared ones: a copy of the moot's frames, "original": False, named m<i>_<tag> as
+Framer.resolveMoots names it, its frames keep the moot's frame names); `encode`, the reference interpreter and
+the oracles work on the expanded program.
 
 `render`   → FloScript text for the real Builder
 `encode`   → one request line for lean/IofloModel/Drv/Flo.lean
@@ -44,12 +49,46 @@ def register():
     @doing.doify('FaRec', ioinits=odict())
     def farec(self, tag=0, ret=0, **kw):
         fr = self._act.frame
-        _LOG.append("E %s %s %s" % (fr.name, self._act.context, tag))
+        _LOG.append(("E", fr.framer.name if hasattr(fr.framer, "name") else str(fr.framer), fr.name, self._act.context, tag))
         return ret
     _REGISTERED = True
 
 
 # ----------------------------------------------------------------------------- naming / resolution helpers
+
+def expand(prog):
+    """the program with every clone clause replaced by a reference to an explicit copy of the moot framer"""
+    if not any(it.get("as") for fr in prog["framers"] for f in fr["frames"] for it in f["items"] if it["t"] == "aux"):
+        return prog
+    p = json.loads(json.dumps(prog))
+    bs = bases(prog)
+    for i, fr in enumerate(prog["framers"]):
+        for j, f in enumerate(fr["frames"]):
+            for n, it in enumerate(f["items"]):
+                if it["t"] == "aux" and it.get("as"):
+                    moot = prog["framers"][it["aux"]]
+                    c = json.loads(json.dumps(moot))
+                    c["sched"], c["original"], c["name"] = "aux", False, "m%d_%s" % (i, it["as"])
+                    c["fnames"] = ["f%d" % (bs[it["aux"]] + q) for q in range(len(moot["frames"]))]
+                    pit = p["framers"][i]["frames"][j]["items"][n]
+                    pit["aux"] = len(p["framers"])
+                    del pit["as"]
+                    p["framers"].append(c)
+    return p
+
+
+def framer_name(prog, i):
+    return prog["framers"][i].get("name", "m%d" % i)
+
+
+def frame_names(prog):
+    """(framer name, frame name) -> global frame number, for an expanded program"""
+    out, bs = {}, bases(prog)
+    for i, fr in enumerate(prog["framers"]):
+        for j in range(len(fr["frames"])):
+            out[(framer_name(prog, i), fr["fnames"][j] if "fnames" in fr else "f%d" % (bs[i] + j))] = bs[i] + j
+    return out
+
 
 def bases(prog):
     out, b = [], 0
@@ -146,7 +185,7 @@ def render(prog):
         L.append("  init .v%d with %d" % (i, v))
     bs = bases(prog)
     for i, fr in enumerate(prog["framers"]):
-        sched = {"active": "active", "inactive": "inactive", "aux": "aux"}[fr["sched"]]
+        sched = {"active": "active", "inactive": "inactive", "aux": "aux", "moot": "moot"}[fr["sched"]]
         L.append("  framer m%d be %s first f%d" % (i, sched, bs[i] + first_of(fr)))
         for j, f in enumerate(fr["frames"]):
             line = "    frame f%d" % (bs[i] + j)
@@ -171,7 +210,8 @@ def render(prog):
                 elif t == "let":
                     L.append("      let me if " + needs_text(prog, i, it["needs"]))
                 elif t == "aux":
-                    L.append("      aux m%d%s" % (it["aux"], (" if " + needs_text(prog, i, it["needs"])) if it["needs"] else ""))
+                    L.append("      aux m%d%s%s" % (it["aux"], (" as " + it["as"]) if it.get("as") else "",
+                                                    (" if " + needs_text(prog, i, it["needs"])) if it["needs"] else ""))
                 else:
                     raise ValueError(t)
     return "\n".join(L) + "\n"
@@ -293,6 +333,7 @@ def act_enc(prog, i, a):
 
 
 def encode(prog):
+    prog = expand(prog)
     T = ["run", prog["ticks"], prog["period"], len(prog["framers"]) + 1,
          "S", len(prog["shares"])] + list(prog["shares"])
     tk = taskables(prog)
@@ -301,7 +342,7 @@ def encode(prog):
         T += [i, "a" if prog["framers"][i]["sched"] == "active" else "i"]
     T += ["FR", len(prog["framers"])]
     for i, fr in enumerate(prog["framers"]):
-        T += ["F", first_of(fr), len(fr["frames"])]
+        T += ["F", first_of(fr), 0 if fr.get("original") is False else 1, len(fr["frames"])]
         ment = marker_enacts(prog, i)
         for j, f in enumerate(fr["frames"]):
             T += ["f", "-" if f.get("over") is None else f["over"]]
@@ -343,8 +384,12 @@ def valid(prog):
                     return False
                 if it["t"] in ("timeout", "repeat") and far_of(prog, i, j, "next") is None:
                     return False
-                if it["t"] == "aux" and not (0 <= it["aux"] < nf and prog["framers"][it["aux"]]["sched"] == "aux"):
+                if it["t"] == "aux" and not (0 <= it["aux"] < nf and
+                                             prog["framers"][it["aux"]]["sched"] == ("moot" if it.get("as") else "aux")):
                     return False
+                if fr["sched"] == "moot" and ((it["t"] == "aux" and it.get("as")) or
+                                              (it["t"] == "act" and it["act"]["k"] == "bid")):
+                    return False                  # no clones of clones, no bids from a template
                 for nd in it.get("needs", []) if it["t"] in ("go", "aux", "let") else []:
                     if nd["k"] in ("up", "chg"):
                         if it["t"] == "let":
@@ -379,13 +424,20 @@ def run_impl(prog, want=("E", "S", "V", "K", "Z")):
         return ["ERR build %s" % type(ex).__name__]
     if not ok:
         return ["ERR build"]
+    prog = expand(prog)
     nfr = len(prog["framers"])
     bs = bases(prog)
     store = sk.houses[0].store
     out = []
+    gid = frame_names(prog)
 
     def num(frame):
-        return "-" if frame is None else frame.name[1:]
+        return "-" if frame is None else str(gid[(frame.framer.name, frame.name)])
+
+    def flush_log():
+        for e in _LOG:
+            out.append("E f%d %s %s" % (gid[(e[1], e[2])], e[3], e[4]))
+        del _LOG[:]
 
     def units(t):
         if t is None:
@@ -395,21 +447,19 @@ def run_impl(prog, want=("E", "S", "V", "K", "Z")):
 
     pairs = mark_pairs(prog)
     keyname = {}
-    for i in range(nfr):
-        for j in range(len(prog["framers"][i]["frames"])):
-            keyname[bs[i] + j] = "m%d<f%d" % (i, bs[i] + j)
+    for (fname, frname), g in gid.items():
+        keyname[g] = "%s<%s" % (fname, frname)
 
     def snap(tag):
         recs = []
         for i in range(nfr):
-            fr = framing.Framer.Names["m%d" % i]
+            fr = framing.Framer.Names[framer_name(prog, i)]
             e = fr.elapsed * 8.0
             es = str(int(e)) if e == int(e) else repr(fr.elapsed)
             recs.append(":".join(["%d" % i, STATUS_NAMES.get(fr.status, str(fr.status)),
                                   num(fr.active), ".".join(num(f) for f in fr.actives) or "-",
                                   "1" if fr.done else "0", num(fr.main), es, str(fr.recurred)]))
-        out.extend(_LOG)
-        del _LOG[:]
+        flush_log()
         out.append(tag + " " + " ".join(recs))
         vals = []
         for i in range(len(prog["shares"])):
@@ -439,11 +489,11 @@ def run_impl(prog, want=("E", "S", "V", "K", "Z")):
     try:
         sk.run()
     except RecursionError:
-        out.extend(_LOG); del _LOG[:]
+        flush_log()
         out.append("ERR run depth")
         return out
     except Exception as ex:
-        out.extend(_LOG); del _LOG[:]
+        flush_log()
         out.append("ERR run %s" % type(ex).__name__)
         return out
     snap("Z")
@@ -847,12 +897,47 @@ def fill_recs(prog, rng=None):
     return prog
 
 
+def clone_shape(rng, framers, frames, depth, new_aux, tagc, ctag):
+    """add a moot framer M and a named clone of it to the main framer under construction (`frames`, whose first `depth`
+    frames form one chain): M's frame names an original auxiliary y — directly, or through an original auxiliary w
+    whose first frame names y — and, except in the `alone` variant, another frame of the chain names y too, above or
+    below the clone's frame, with or without a further original z claimed before the clone.  The items of a frame
+    are shuffled afterwards, so the clause order within a frame varies as well."""
+    y = new_aux(1)
+    if y is None:
+        return
+    kind = rng.choice(["clone-above", "clone-below", "after-z", "deep", "alone"])
+    inner = y
+    if kind == "deep":
+        w = new_aux(1)
+        if w is not None:
+            framers[w]["frames"][0]["items"].append({"t": "aux", "aux": y, "needs": []})
+            inner = w
+    m = len(framers)
+    framers.append({"sched": "moot", "first": None, "frames": [
+        {"over": None, "under": None, "items": _recs(rng, tagc, True) + [{"t": "aux", "aux": inner, "needs": []}]}]})
+    ctag[0] += 1
+    clause = {"t": "aux", "aux": m, "as": "c%d" % ctag[0], "needs": []}
+    a, b = (sorted(rng.sample(range(depth), 2)) if depth >= 2 else (0, 0))
+    if kind == "clone-below":
+        a, b = b, a
+    frames[a]["items"].append(clause)
+    if kind == "after-z":
+        z = new_aux(1)
+        if z is not None:
+            frames[a]["items"].append({"t": "aux", "aux": z, "needs": []})
+    if kind != "alone":
+        frames[b]["items"].append({"t": "aux", "aux": y, "needs": []})
+
+
 def gen_guards(rng):
     """programs centred on entry guards: `let` guards at several depths on shares that only the clock framer
     writes (.v0 = tick counter, .v1 = a flag the clock flips at chosen ticks), transitions whose targets are
     guarded, auxiliaries (plain and conditional) whose first frames are guarded, an original auxiliary named by
-    two frames.  .v2 is free for frame actions."""
+    two frames (also through auxiliaries of auxiliaries and named clones of moot framers).  .v2 is free for frame
+    actions."""
     tagc = [0]
+    ctag = [0]
 
     def guard():
         r = rng.random()
@@ -870,6 +955,7 @@ def gen_guards(rng):
     cframes = []
     val = rng.choice([0, 1])
     init_v1 = val
+    v1_at = []                              # value of .v1 while the clock is in its n-th frame
     for n, t in enumerate(flips + [None]):
         items = [{"t": "act", "ctx": "recur", "act": {"k": "inc", "dst": 0, "v": 1}}]
         if n > 0:
@@ -877,6 +963,7 @@ def gen_guards(rng):
             items.append({"t": "act", "ctx": "enter", "act": {"k": "put", "dst": 1, "v": val}})
         if t is not None:
             items.append({"t": "go", "far": "next", "needs": [{"k": "cd", "sh": 0, "op": ">=", "v": t}]})
+        v1_at.append(val)
         cframes.append({"over": None, "under": None, "items": items})
     framers = [{"sched": "active", "first": None, "frames": cframes}]
     nmain = rng.choice([1, 2, 2])
@@ -886,7 +973,7 @@ def gen_guards(rng):
 
     def reuse():
         """a completed auxiliary of any level, named by some clause already"""
-        done = [k for k in range(1 + nmain, len(framers)) if framers[k] is not None]
+        done = [k for k in range(1 + nmain, len(framers)) if framers[k] is not None and framers[k]["sched"] == "aux"]
         return rng.choice(done) if done else None
 
     def new_aux(level):
@@ -957,6 +1044,8 @@ def gen_guards(rng):
             if rng.random() < 0.06:
                 its.append({"t": "act", "ctx": "recur", "act": {"k": "bid", "ctl": "stop", "targets": ["me"]}})
             rng.shuffle(its)
+        if rng.random() < 0.12:
+            clone_shape(rng, framers, frames, depth, new_aux, tagc, ctag)
         if depth >= 2 and rng.random() < 0.1:
             # an auxiliary y of one frame whose own first frame names z, and z named by another frame of the same
             # outline as well: one entry would claim z twice, once through y
@@ -969,6 +1058,22 @@ def gen_guards(rng):
                 frames[b]["items"].append({"t": "aux", "aux": z, "needs": []})
         framers[m] = {"sched": "active" if rng.random() < 0.85 else "inactive",
                       "first": rng.randrange(n) if rng.random() < 0.3 else None, "frames": frames}
+    if rng.random() < 0.45 and len(cframes) >= 2:
+        # control sequences on a framer that does not start by itself: the clock bids `ready` in one of its frames and
+        # `start` (or `ready` again, `stop`) in a later one — whose enter action also flips .v1, in the same tick and
+        # before the target runs; often the target's first frame is guarded by the value .v1 had in between
+        x = rng.randrange(1, 1 + nmain)
+        framers[x]["sched"] = "inactive"
+        a = rng.randrange(0, len(cframes) - 1)
+        b = rng.randrange(a + 1, len(cframes))
+        cframes[a]["items"].append({"t": "act", "ctx": "enter", "act": {"k": "bid", "ctl": "ready", "targets": [x]}})
+        cframes[b]["items"].append({"t": "act", "ctx": "enter",
+                                    "act": {"k": "bid", "ctl": rng.choice(["start", "start", "start", "ready", "stop"]),
+                                            "targets": [x]}})
+        if rng.random() < 0.7:
+            fx = framers[x]["frames"][first_of(framers[x])]
+            fx["items"] = [it for it in fx["items"] if it["t"] != "let"]
+            fx["items"].append({"t": "let", "needs": [{"k": "cd", "sh": 1, "op": "==", "v": v1_at[b - 1]}]})
     if rng.random() < 0.5 and nmain >= 1:       # the clock (re)starts a main framer at some tick
         cframes[-1]["items"].append({"t": "act", "ctx": "enter", "act": {"k": "bid", "ctl": "start",
                                                                           "targets": [rng.randrange(1, 1 + nmain)]}})
@@ -981,6 +1086,7 @@ def gen_auxes(rng, named_done=True):
     per frame, rarely an original shared by two frames; `done me` / `done <aux>` verbs; transitions conditioned on
     `any|all|<aux> in frame … is done` and `<aux> is done`; a clock framer counts ticks in .v0"""
     tagc = [0]
+    ctag = [0]
     nmain = rng.choice([1, 1, 2])
     framers = [None] * (1 + nmain)
     framers[0] = {"sched": "active", "first": None, "frames": [
@@ -1048,7 +1154,8 @@ def gen_auxes(rng, named_done=True):
         for j, f in enumerate(frames):
             for _ in range(rng.choice([0, 1, 1, 2])):
                 r = rng.random()
-                deep = [k for k in range(1 + nmain, len(framers)) if framers[k] is not None and k not in pool]
+                deep = [k for k in range(1 + nmain, len(framers))
+                        if framers[k] is not None and framers[k]["sched"] == "aux" and k not in pool]
                 if pool and r < 0.06:
                     a = rng.choice(pool)                   # an original auxiliary named by a second frame
                 elif deep and r < 0.12:
@@ -1059,6 +1166,8 @@ def gen_auxes(rng, named_done=True):
                     f["items"].append({"t": "aux", "aux": a, "needs": []})
                     mine.setdefault(j, []).append(a)
                     pool.append(a)
+        if rng.random() < 0.25:
+            clone_shape(rng, framers, frames, depth, new_aux, tagc, ctag)
         for j, f in enumerate(frames):
             its = f["items"]
             for _ in range(rng.choice([1, 1, 2, 3])):
